@@ -9,6 +9,12 @@ From Bluge Require Import Base.Int64 Base.Res Base.Corr Base.Uvarint Base.CRC32 
 Import ListNotations.
 Open Scope Z_scope.
 
+(* base files are written as 8 bytes per numeral (big-endian) to keep the shard prelude small *)
+Definition unpack8_one (n : Z) : list Z :=
+  [ (n / 72057594037927936) mod 256; (n / 281474976710656) mod 256; (n / 1099511627776) mod 256;
+    (n / 4294967296) mod 256; (n / 16777216) mod 256; (n / 65536) mod 256; (n / 256) mod 256; n mod 256 ].
+Definition unpack8 (len : Z) (l : list Z) : list Z := ztake len (flat_map unpack8_one l).
+
 Inductive src :=
 | SBytes (b : list Z)
 | STrunc (x : src) (n : Z)                    (* the first n bytes *)
